@@ -76,6 +76,33 @@ PROPS["C11"] = {
 }
 
 
+PROPS["C17"] = {
+    "level": "model_checking",
+    "explanation": "each simple.Nfs procedure executed symbolically against the 30-files-of-4096-bytes specification on the same symbolic arguments and symbolic disk; replies and witness post-state compared; journal monitor for single durable append",
+    "assumptions": JOURNAL + ["pre-state: inode i has Data = 514+i and Size <= 4096 (the invariant established by simple.Mkfs; preservation is asserted)"],
+    "outside": ["more than B_bytes bytes moved per request", "real interleavings (lock discipline is checked instead)", "crash atomicity of the journal itself (C01)"],
+    "harnesses": [
+        H("simple.VerifSimpleGetattr", covers=("ok", "invalid", "root"), q={"bbytes": 2}, t={"bbytes": 6, "allinums": 1}),
+        H("simple.VerifSimpleRead", covers=("data", "beyond", "invalid"), q={"bbytes": 2}, t={"bbytes": 6, "allinums": 1}),
+        H("simple.VerifSimpleWrite", covers=("ok", "refused"), q={"bbytes": 2}, t={"bbytes": 6, "allinums": 1}),
+        H("simple.VerifSimpleSetattr", covers=("ok", "toolarge", "invalid", "nosize"), q={"bbytes": 2}, t={"bbytes": 6, "allinums": 1}),
+        H("simple.VerifSimpleOther", q={}, t={}),
+        H("simple.VerifSimpleCommit", q={}, t={}),
+    ],
+}
+
+PROPS["C18"] = {
+    "level": "model_checking",
+    "explanation": "kvs.MultiPut/Get executed symbolically over the journal contract with symbolic keys (possibly equal) and symbolic 4096-byte values; single append, durable before return, last-writer-wins at a witness byte, Get returns it",
+    "assumptions": JOURNAL,
+    "outside": ["more than 3 pairs per MultiPut", "crash atomicity of the journal itself (C01)", "concurrent callers (the journal serialises them; assumed)"],
+    "harnesses": [
+        H("kvs.VerifKvsMultiPut", q={"pairs": 2}, t={"pairs": 3}),
+        H("kvs.VerifKvsLarge", covers=("ok", "refused"), q={"disksz": 2000}, t={"disksz": 2000}),
+    ],
+}
+
+
 def is_monitor_label(label):
     return label.startswith("mon:")
 
